@@ -1,8 +1,9 @@
 /-
   C19 line-protocol ops.
 
-    c19.amountIn  method text          -> satoshis | err:<family>       (Model.Rpc.amountIn; bad-args if not a number)
-    c19.amountOut method satoshis      -> satoshis                      (Spec: the emitted text must denote exactly this)
+    c19.amountIn  method text          -> satoshis | err:<family>       (Model.Rpc.amountOfVal: a number text, NaN, ±Infinity,
+                                                                         null, true, false; bad-args otherwise)
+    c19.amountOut method sat emitted   -> satoshis | inexact            (Model.Rpc.satoshisDenoted of the text the proxy emitted)
     c19.lx        str                  -> hex | err:py:Error
     c19.b2lx      hex                  -> str
     c19.chain     kind serverstr       -> hex(lx s) '|' b2lx(lx s)      (hash returned by one call, passed to the next)
@@ -10,11 +11,11 @@
     c19.unhex     str                  -> hex | err:py:Error            (unhexlify_str, x)
     c19.hex       hex                  -> str                           (hexlify_str, b2x)
     c19.reply     method replyspec     -> result:<v> | raise:<Class>:<code> | err:py:IndexError
-    c19.ids       tokens               -> ids sent, ','-joined ('b' for a batch request)
+    c19.ids       tokens               -> Model.Rpc.idsSent: the ids of the `_call` requests, ','-joined
 
-    replyspec := none | nonjson=<i> | obj:<err>:<res>
+    replyspec := none | nonjson=<i> | nonutf8=<i> | nonobj=<i> | obj:<err>:<res>
     err       := absent | null | other=<i> | dict=<code>
-    code      := absent | empty | int=<n> | dec=<number text> | true | false | null | str
+    code      := absent | empty | int=<n> | dec=<number text> | true | false | null | str | unhashable=<i>
     res       := absent | v=<text>
 -/
 import Driver.Util
@@ -32,10 +33,20 @@ def parseCode? (s : String) : Option CodeVal :=
   else if s = "false" then some (.bool false)
   else if s = "null" then some .null
   else if s = "str" then some .str
+  else if s.startsWith "unhashable=" then some .unhashable
   else if s.startsWith "int=" then (parseInt? (s.drop 4).toString).map .int
   else if s.startsWith "dec=" then
     (scanNumber (s.drop 4).toString.toList).map (fun t => .dec t.neg t.coeff t.expo)
   else none
+
+def parseAmountVal (s : String) : AmountVal :=
+  if s = "NaN" then .nan
+  else if s = "Infinity" then .inf false
+  else if s = "-Infinity" then .inf true
+  else if s = "null" then .null
+  else if s = "true" then .bool true
+  else if s = "false" then .bool false
+  else .num s.toList
 
 def parseErr? (s : String) : Option ErrVal :=
   if s = "absent" then some .absent
@@ -52,6 +63,8 @@ def parseRes? (s : String) : Option (Option String) :=
 def parseReply? (s : String) : Option Reply :=
   if s = "none" then some .noResponse
   else if s.startsWith "nonjson=" then some .nonJson
+  else if s.startsWith "nonutf8=" then some .nonUtf8
+  else if s.startsWith "nonobj=" then some .nonObject
   else match s.splitOn ":" with
     | ["obj", e, r] => do
         let e ← parseErr? e
@@ -85,12 +98,12 @@ def transport {α} (ser : α → Res Bytes) (de : Model.Wire.Parser α) (show_ :
 
 def handle (op : String) (args : List String) : Option String :=
   match op, args with
-  | "c19.amountIn", [_, text] => some <| match amountIn text.toList with
+  | "c19.amountIn", [_, text] => some <| match amountOfVal (parseAmountVal text) with
       | some r => Res.render (r.map toString)
       | none => badArgs
-  | "c19.amountOut", [_, amt] => some <| match parseNat? amt with
-      | some a => toString a
-      | none => badArgs
+  | "c19.amountOut", [_, _, emitted] => some <| match satoshisDenoted emitted.toList with
+      | some k => toString k
+      | none => "inexact"
   | "c19.lx", [s] => some <| Res.render ((lx s).map toHex)
   | "c19.unhex", [s] => some <| Res.render ((unhexlify s).map toHex)
   | "c19.hex", [h] => some <| match parseHex? h with
@@ -115,14 +128,7 @@ def handle (op : String) (args : List String) : Option String :=
       | some r => showOutcome (methodOutcome m r)
       | none => badArgs
   | "c19.ids", [toks] => some <| match (splitList toks ',').mapM parseReq? with
-      | some reqs =>
-          -- re-run the state machine to interleave the batch markers
-          let rec go (s : PState) : List Req → List String
-            | [] => []
-            | r :: rs =>
-                let (s', i) := stepReq s r
-                (match i with | some n => toString n | none => "b") :: go s' rs
-          joinWith "," (go PState.init reqs)
+      | some reqs => joinWith "," ((idsSent PState.init reqs).map toString)
       | none => badArgs
   | _, _ => none
 
